@@ -14,13 +14,26 @@ THEOREMS = {
             "Backend.C20_narrow_counter_2bit", "Backend.PC.CInv_runOps",
             "Obligations.BackendC.invalid_counter_wide", "Obligations.BackendC.c20_structure",
             "Obligations.BackendC.C20_counter_extracted", "Obligations.BackendC.C20_early_return_extracted"],
+    "C17": ["Backend.C17_erased_logger_has_no_record", "Backend.C17_erase_only_when_drained",
+            "Backend.C17_dead_sink_unreferenced", "Backend.C17_no_use_after_dtor", "Backend.C17_alive_sink_no_dtor",
+            "Backend.C17_parked_removal_exclusive", "Backend.C17_create_returns_existing",
+            "Backend.C17_create_fresh_object", "Backend.C17_create_waits_for_erase", "Backend.C17_remove_busy_noop",
+            "Backend.PC.FInv_runOps", "Obligations.BackendC.c17_structure",
+            "Obligations.BackendC.C17_erased_logger_has_no_record_extracted"],
     "C07": ["Backend.C07_conservation", "Backend.C07_unregistered_empty", "Backend.C07_exit_drains",
             "Backend.C07_exit_flushes_last", "Backend.PC.TCInv_runOps",
             "Obligations.BackendC.c07_structure", "Obligations.BackendC.C07_exit_drains_extracted"],
 }
 MODULES = {
+    "C17": ["Backend.C17_erased_logger_has_no_record", "Backend.C17_erase_only_when_drained",
+            "Backend.C17_dead_sink_unreferenced", "Backend.C17_no_use_after_dtor", "Backend.C17_alive_sink_no_dtor",
+            "Backend.C17_parked_removal_exclusive", "Backend.C17_create_returns_existing",
+            "Backend.C17_create_fresh_object", "Backend.C17_create_waits_for_erase", "Backend.C17_remove_busy_noop",
+            "Backend.PC.FInv_runOps", "Obligations.BackendC.c17_structure",
+            "Obligations.BackendC.C17_erased_logger_has_no_record_extracted"],
     "C07": ["QuillModel.Props.C07Drain"],
     "C16": ["QuillModel.Props.C16"],
+    "C17": ["QuillModel.Props.C17"],
     "C20": ["QuillModel.Props.C20"],
 }
 OBLIG = ["QuillModel.Obligations.BackendC"]
